@@ -257,6 +257,10 @@ bool download_http_curl(std::string_view url, std::string& output, std::string& 
 #endif  // _WIN32
 enum class JsonType { Null, Boolean, Number, String, Object, Array };
 
+// Arrays/objects nested deeper than this are rejected: the parser recurses once per level, so
+// unbounded nesting in a downloaded document would exhaust the stack.
+constexpr std::size_t kMaxJsonDepth = 128;
+
 struct JsonValue {
     JsonType type{JsonType::Null};
     bool bool_value{false};
@@ -307,11 +311,14 @@ private:
             value.string_value = parse_string();
             return value;
         }
-        if (ch == '{') {
-            return parse_object();
-        }
-        if (ch == '[') {
-            return parse_array();
+        if (ch == '{' || ch == '[') {
+            if (depth_ >= kMaxJsonDepth) {
+                throw std::runtime_error("JSON nesting too deep");
+            }
+            ++depth_;
+            JsonValue value = (ch == '{') ? parse_object() : parse_array();
+            --depth_;
+            return value;
         }
         if (ch == 't' || ch == 'f') {
             return parse_boolean();
@@ -586,6 +593,7 @@ private:
 
     std::string_view input_;
     std::size_t pos_{0};
+    std::size_t depth_{0};
 };
 
 const JsonValue* expect_string_field(const JsonValue& object, std::string_view key, std::string& error) {
